@@ -622,7 +622,8 @@ def _draw_spec(draw, state, kinds, counter):
         odd = draw(st.integers(0, nr - 1))
         return {'k': k, 'name': 'csv%d' % n, 'header': ['id', 'label', 'amount'],
                 'cells': [[str(j + 1), 'x', ('X%03d' % j) if j == odd else str(100 + j)] for j in range(nr)],
-                'options': draw(st.sampled_from([{}, {'cast_strategy': 'schema'}]))}
+                # (cast, as every generated load: uncast CSV text under a numeric type is ill-typed input for later steps)
+                'options': {'cast_strategy': 'schema'}}
     if k == 'load_csv':
         nr = draw(st.integers(0, 3))
         return {'k': k, 'name': 'csv%d' % n, 'header': ['id', 'label', 'amount'],
